@@ -94,5 +94,6 @@ def dispatchWhole (toks : List String) : Option String :=
   match toks with
   | ["dec", hex] => some (WholeCmd.decBeatmap (unhex hex))
   | ["dec9", hex] => some (WholeCmd.dec9 (unhex hex))
+  | ["decshift", _, a, b] => some (WholeCmd.decBeatmap (unhex a) ++ " ## " ++ WholeCmd.decBeatmap (unhex b))
   | _ => none
 end Rosu
